@@ -494,6 +494,113 @@ class ExprMixin:
     def ev_Starred(self, e, st, exc, expect):
         raise EngineError("starred expression (L%d)" % e.lineno)
 
+
+    # ---------------------------------------------------------------- comprehensions
+    def ev_ListComp(self, e, st, exc, expect):
+        return self._comprehension(e, st, exc, expect, "list")
+
+    def ev_SetComp(self, e, st, exc, expect):
+        return self._comprehension(e, st, exc, expect, "set")
+
+    def ev_GeneratorExp(self, e, st, exc, expect):
+        return self._comprehension(e, st, exc, expect, "list")
+
+    def _comprehension(self, e, st, exc, expect, kind):
+        if len(e.generators) != 1 or e.generators[0].is_async:
+            return self.ev_unsupported(e, st, exc, expect)
+        g = e.generators[0]
+        res = []
+        for s1, src in self.ev(g.iter, st, exc):
+            if isinstance(src.s, Opt):
+                s1 = self.raise_if(s1, src.is_none, "TypeError", e, exc)
+                if s1 is None:
+                    continue
+                src = src.s.val(src)
+            if src.s in (POLY_LIST, POLY_SET, POLY_DICT):
+                res.append((s1, V(POLY_LIST if kind == "list" else POLY_SET, "[]")))
+                continue
+            if src.s == ITER and src.t[0] in ("items", "values"):
+                m = src.t[1]
+                dom = V(SetS(m.s.key), m.s.dom(m))
+                k = m.s.key.fresh("q")
+                member = lambda q_: z3.Select(dom.t, q_)     # noqa
+                elemv = Tup(m.s.key, m.s.val).mk(k, m[k]) if src.t[0] == "items" else m[k]
+                q, is_seq, srcv = k, False, None
+            elif isinstance(src.s, Seq):
+                q = src.s.elem.fresh("q")
+                member = lambda q_: z3.Contains(src.t, z3.Unit(q_))     # noqa
+                elemv, is_seq, srcv = q, True, src
+            elif isinstance(src.s, SetS):
+                q = src.s.elem.fresh("q")
+                member = lambda q_: z3.Select(src.t, q_)     # noqa
+                elemv, is_seq, srcv = q, False, None
+            elif isinstance(src.s, MapS):
+                q = src.s.key.fresh("q")
+                member = lambda q_: z3.Select(src.s.dom(src), q_)     # noqa
+                elemv, is_seq, srcv = q, False, None
+            else:
+                # opaque iterable: the body may have effects we cannot see
+                for n in ast.walk(e.elt):
+                    if isinstance(n, ast.Call):
+                        raise EngineError("comprehension over an opaque iterable with calls (L%d)" % e.lineno)
+                exc.append((s1.copy(), exc_value("Exception*", e.lineno, "iteration of opaque value")))
+                so = expect if isinstance(expect, (Seq, SetS)) else (Seq(ANY) if kind == "list" else SetS(ANY))
+                res.append((s1, self.fresh(so, "comp", s1)))
+                continue
+            sub = s1.copy()
+            sub_exc = []
+            subs = self.assign(g.target, elemv, sub, sub_exc)
+            if len(subs) != 1:
+                raise EngineError("comprehension target forks (L%d)" % e.lineno)
+            sub = subs[0]
+            ver = sub.version
+            cond = S.TRUE
+            for c in g.ifs:
+                r = self.ev(c, sub, sub_exc)
+                if len(r) != 1:
+                    raise EngineError("comprehension condition forks (L%d)" % e.lineno)
+                sub, cv = r[0]
+                cond = S.And(cond, S.truthy(cv))
+            r = self.ev(e.elt, sub, sub_exc)
+            if len(r) != 1 or sub_exc:
+                raise EngineError("comprehension body forks or may raise (L%d): %s" % (e.lineno, ast.unparse(e)[:60]))
+            sub, val = r[0]
+            if val.s.pyside:
+                raise EngineError("comprehension of python-side values (L%d)" % e.lineno)
+            identity = val.t is elemv.t or (z3.is_expr(val.t) and z3.is_expr(elemv.t) and val.t.eq(elemv.t))
+            always = z3.is_true(z3.simplify(cond.t))
+            if kind == "list":
+                so = Seq(val.s)
+                out = self.fresh(so, "comp", s1)
+                if is_seq and identity and always:
+                    s1.assume(out.t == srcv.t)
+                elif is_seq and identity:
+                    s1.assume(z3.ForAll([q.t], z3.Contains(out.t, z3.Unit(q.t)) == z3.And(member(q.t), cond.t)))
+                    s1.assume(z3.Length(out.t) <= z3.Length(srcv.t))
+                elif is_seq and always:
+                    i = INT.fresh("i")
+                    s1.assume(z3.Length(out.t) == z3.Length(srcv.t))
+                    s1.assume(z3.ForAll([i.t], z3.Implies(z3.And(i.t >= 0, i.t < z3.Length(srcv.t)),
+                                                          out.t[i.t] == z3.substitute(val.t, (q.t, srcv.t[i.t])))))
+                else:
+                    y = val.s.fresh("y")
+                    s1.assume(z3.ForAll([y.t], z3.Contains(out.t, z3.Unit(y.t)) ==
+                                        z3.Exists([q.t], z3.And(member(q.t), cond.t, y.t == val.t))))
+                    if is_seq:
+                        s1.assume(z3.Length(out.t) <= z3.Length(srcv.t))
+                res.append((s1, out))
+            else:
+                so = SetS(val.s)
+                out = so.fresh("comp")
+                if identity:
+                    s1.assume(z3.ForAll([q.t], z3.Select(out.t, q.t) == z3.And(member(q.t), cond.t)))
+                else:
+                    y = val.s.fresh("y")
+                    s1.assume(z3.ForAll([y.t], z3.Select(out.t, y.t) ==
+                                        z3.Exists([q.t], z3.And(member(q.t), cond.t, y.t == val.t))))
+                res.append((s1, out))
+        return res
+
     # ---------------------------------------------------------------- subscripts
     def ev_Subscript(self, e, st, exc, expect):
         res = []
